@@ -137,7 +137,19 @@ func refCode(key []byte, counter uint64, digits, algo int) string {
 
 func genOps(r *rng, n int) []op {
 	var ops []op
-	digitsS := []string{"6", "8", "9", "10", "7", "x", "06"}
+	// boundary codes (maximal zero padding) through both tables of names
+	for _, rc := range rareCodes {
+		as := []string{"SHA1", "SHA256", "SHA512"}[rc[0]]
+		for _, ds := range []string{"10", "9", "8", "6"} {
+			tgt := pick(r, []string{"global", "export"})
+			ops = append(ops, op{Target: tgt, Fn: "generateHOTP", Args: []jsArg{jstr(rfcKeyB32), jint(int64(rc[1])), jstr(ds), jstr(as)}})
+			d := map[string]int{"10": 10, "9": 9, "8": 8, "6": 6}[ds]
+			code := refCode([]byte("12345678901234567890"), rc[1], d, int(rc[0]))
+			ops = append(ops, op{Target: tgt, Fn: "validateHOTP", Args: []jsArg{jstr(rfcKeyB32), jstr(mutCode(r, code)), jint(int64(rc[1]) + int64(r.intn(3)) - 1), jstr(ds), jstr(as), jint(1)}})
+			ops = append(ops, op{Target: tgt, Fn: "validateTOTP", Args: []jsArg{jstr(rfcKeyB32), jstr("+" + code[1:]), jint(int64(rc[1]) * 30), jstr(ds), jstr(as), jint(0), jint(30)}})
+		}
+	}
+	digitsS := []string{"6", "8", "9", "10", "6", "8", "10", "7", "x", "06", "08", "+8", "010", "264", "266", " 8", "8 ", "-248"}
 	algoS := []string{"SHA1", "SHA256", "SHA512", "sha1", "MD5"}
 	dOf := map[string]int{"6": 6, "8": 8, "9": 9, "10": 10}
 	aOf := map[string]int{"SHA1": 0, "SHA256": 1, "SHA512": 2}
@@ -168,7 +180,15 @@ func genOps(r *rng, n int) []op {
 			o = op{Target: target, Fn: "generateHOTP", Args: []jsArg{jstr(secret), cv, jstr(ds), jstr(as)}}
 		case 2:
 			per := int64(pick(r, []int{1, 29, 30, 30, 60, 3600, 3601, 0}))
-			o = op{Target: target, Fn: "generateTOTP", Args: []jsArg{jstr(secret), jint(counter % (1 << 53)), jstr(ds), jstr(as), jint(per)}}
+			ts := counter % (1 << 53)
+			if r.intn(3) == 0 {
+				// an instant at which several periods start a window together, asked again with another period right after
+				ts = int64(3600 * (1 + r.intn(500000)))
+				o = op{Target: target, Fn: "generateTOTP", Args: []jsArg{jstr(secret), jint(ts), jstr(ds), jstr(as), jint(per)}}
+				ops = append(ops, o)
+				per = int64(pick(r, []int{30, 60, 120, 300, 3600, 15, 1}))
+			}
+			o = op{Target: target, Fn: "generateTOTP", Args: []jsArg{jstr(secret), jint(ts), jstr(ds), jstr(as), jint(per)}}
 		case 3, 4:
 			skew := int64(pick(r, []int{0, 1, 1, 2, 3, 10, 11}))
 			w := skew
@@ -177,12 +197,7 @@ func genOps(r *rng, n int) []op {
 			}
 			dist := int64(r.intn(int(2*(w+2)+1))) - (w + 2)
 			cc := counter + dist // below counter 0 this wraps (uint64): native HOTP skips those steps, so their codes must be refused
-			code := refCode(key, uint64(cc), d, a)
-			if r.intn(6) == 0 {
-				b := []byte(code)
-				b[r.intn(len(b))] ^= 1
-				code = string(b)
-			}
+			code := mutCode(r, refCode(key, uint64(cc), d, a))
 			o = op{Target: target, Fn: "validateHOTP", Args: []jsArg{jstr(secret), jstr(code), jint(counter), jstr(ds), jstr(as), jint(skew)}}
 		case 5, 6:
 			skew := int64(pick(r, []int{0, 1, 1, 2, 3, 10, 11}))
@@ -194,7 +209,7 @@ func genOps(r *rng, n int) []op {
 			}
 			dist := int64(r.intn(int(2*(w+2)+1))) - (w + 2)
 			step := ts/per + dist // near the epoch this wraps (uint64): native TOTP does visit the wrapped steps
-			code := refCode(key, uint64(step), d, a)
+			code := mutCode(r, refCode(key, uint64(step), d, a))
 			o = op{Target: target, Fn: "validateTOTP", Args: []jsArg{jstr(secret), jstr(code), jint(ts), jstr(ds), jstr(as), jint(skew), jint(per)}}
 		case 7:
 			o = op{Target: target, Fn: "generateOTPURL", Args: []jsArg{jstr(pick(r, []string{"totp", "hotp", "x"})), jstr(pick(r, []string{"Example", "My Co", "A/B?c#d%41"})),
@@ -346,6 +361,38 @@ func trunc(s string, n int) string {
 		return s[:n] + "…"
 	}
 	return s
+}
+
+// rareCodes: counters at which the truncated HMAC value of the RFC 4226 test key is below 10 (found by cmd/rarecodes,
+// about 2·10^8 HMACs per hit): the decimal code then has the maximal number of leading zeros.  {algo, counter, value}
+var rareCodes = [][3]uint64{{0, 549209910, 2}, {0, 645201048, 2}, {0, 1145924030, 7}, {1, 100499525, 2}, {1, 142619083, 7}, {1, 211445524, 6},
+	{2, 170782163, 7}, {2, 188616518, 2}, {2, 222150204, 2}}
+
+const rfcKeyB32 = "GEZDGNBVGY3TQOJQGEZDGNBVGY3TQOJQ"
+
+// mutCode: mostly the code itself; otherwise a near miss that a lenient parser, a trimming helper or a numeric
+// comparison would let through (the native validator compares the string byte for byte)
+func mutCode(r *rng, code string) string {
+	if code == "" {
+		return code
+	}
+	switch r.intn(14) {
+	case 0:
+		b := []byte(code)
+		b[r.intn(len(b))] ^= 1
+		return string(b)
+	case 1:
+		return pick(r, []string{" ", "\t", "\n", "\u00a0"}) + code
+	case 2:
+		return code + pick(r, []string{" ", "\t", "\r\n", "\u00a0"})
+	case 3: // a sign in place of a leading zero / leading character
+		return pick(r, []string{"+", "-", " "}) + code[1:]
+	case 4:
+		return pick(r, []string{"+", "0", "00"}) + code
+	case 5: // full-width / Arabic-Indic digit for the last character
+		return code[:len(code)-1] + pick(r, []string{"０", "٠", "x"})
+	}
+	return code
 }
 
 func main() {
